@@ -8,7 +8,7 @@ OnOffsDef    == {0, 1, 100}
 TimesDef     == {-1, 0, 1, 3}
 StepsDef     == {-1, 0, 1, 2, 10}
 SweepDursDef == {0, 1, 120}
-TemposDef    == {NONE, -1, 0, 60, 240}
+TemposDef    == {NONE, -1, 0, 60, 240, 10075, 11875}
 MelodiesDef  == MelodyNames
 DefaultsDef  == {440000, 880000}
 \* reduced grids: quick tier model checking, and the exhaustive length-2 generation
@@ -18,7 +18,7 @@ OnOffsQ    == {0, 100}
 TimesQ     == {0, 1, 3}
 StepsQ     == {0, 1, 10}
 SweepDursQ == {1, 120}
-TemposQ    == {NONE, 0, 240}
+TemposQ    == {NONE, 0, 240, 10075}
 DefaultsQ  == {440000}
 \* small grid: the exhaustive length-2 generation of the quick tier
 FreqsS     == {0, 440000, 4000600}
